@@ -42,9 +42,9 @@ CLAIMED = {
     "C03": ("Theorems. Queue level: after any prefix of any operation history the queue directory reloads to exactly the reference queue of that prefix; a torn position file only rewinds. World level, about the disk left by a timeout pass "
             "under EVERY oracle (returned, reported an error, or the process died before any call): the queue directory still refines a reference queue that is a suffix of the original entries under their original link names, holds "
             "nothing but numbered links, no stored file changed, and load_linq on that disk succeeds and yields exactly that suffix; for every honest oracle (any crash, any errno that does not itself mean an expected condition, any short "
-            "non-zero transfer): if the link of the first entry is gone, the store holds a file with the source's bytes (pop only after the copy). Tie: the implementation is really killed (_exit) before every system call of 19 scenario "
+            "non-zero transfer): if the link of the first entry is gone, the store holds a file with the source's bytes (pop only after the copy); if the gone link was a project entry (and no access() probe failed: K5), the snapshot directory exists and is complete - exactly the entries the snapshot theorem prescribes - and later iterations never touch it; if the link is still there, load_linq yields the original entries (every oracle); for a member entry the unstable link is old, absent or the new inode. Tie: the implementation is really killed (_exit) before every system call of 19 scenario "
             "families, restarted and drained, and compared with the model under the same crash index; monitors: recovery (files and projects), store immutable, queue form, position not ahead of the store.",
-            NOTE + "Crash = process death between two system calls with completed calls durable. 'Pop after copy' is proved for the first file entry of a pass; later entries, project entries, accept and reload operations are covered by the "
+            NOTE + "Crash = process death between two system calls with completed calls durable. 'Pop after copy / snapshot' is proved for the first entry of a pass (file, member, project); later entries, accept and reload operations are covered by the "
             "suffix / immutability theorems and the enumeration. Known finding K3 (reload changing queue_path strands pending entries).",
             "program logic with crash condition over the world model, for all oracles; prefix-closed simulation invariant; crash-point enumeration against the model + recovery monitor"),
     "C04": ("Theorems for EVERY oracle (any failing calls, short transfers, a crash at any call): a timeout pass, an exec or write event (including a configuration reload), a restart, "
